@@ -1,0 +1,109 @@
+//go:build verif
+
+package durationpb
+
+import (
+	"math"
+	"time"
+)
+
+// Contracts for the Duration helpers (property C43). Specs are written from the
+// documented field ranges of google.protobuf.Duration and the doc comments of
+// the helpers, not from their bodies.
+
+// specDurationClamp is seconds*10^9 + nanos clamped to the int64 range, written
+// so that no intermediate value leaves int64 (the function is therefore also
+// correct when executed as Go, which is what counterexample replay does).
+func specDurationClamp(secs int64, nanos int32) int64 {
+	const q, r = 9223372036, 854775807 // MaxInt64 == q*10^9 + r, MinInt64 == -(q*10^9 + r + 1)
+	if secs > q+4 {
+		return math.MaxInt64
+	}
+	if secs < -q-4 {
+		return math.MinInt64
+	}
+	if secs >= q-4 {
+		over := (secs-q)*1000000000 + (int64(nanos) - r) // exact - MaxInt64
+		if over >= 0 {
+			return math.MaxInt64
+		}
+		return math.MaxInt64 + over
+	}
+	if secs <= -q+4 {
+		under := (secs+q)*1000000000 + (int64(nanos) + r + 1) // exact - MinInt64
+		if under <= 0 {
+			return math.MinInt64
+		}
+		return math.MinInt64 + under
+	}
+	return secs*1000000000 + int64(nanos)
+}
+
+// specDurationValid: the documented ranges: seconds within +-10000 years
+// (315,576,000,000 s), nanos within +-999,999,999, and signs that agree.
+func specDurationValid(secs int64, nanos int32) bool {
+	return -315576000000 <= secs && secs <= 315576000000 &&
+		-999999999 <= nanos && nanos <= 999999999 &&
+		!(secs > 0 && nanos < 0) && !(secs < 0 && nanos > 0)
+}
+
+//@ props C43
+//@ mode int
+//@ inline GetSeconds GetNanos
+func contract_Duration_AsDuration(x *Duration) (d time.Duration) {
+	ensures(imp(x == nil, d == 0))
+	// exact clamped value when seconds and nanos do not pull in opposite directions
+	// (this includes every valid Duration)
+	ensures(imp(x != nil && !specSignMismatch(x.Seconds, x.Nanos), int64(d) == specDurationClamp(x.Seconds, x.Nanos)))
+	// ... and for sign-mismatched (invalid) values too, as the property states "for any seconds/nanos"
+	ensuresGoal(imp(x != nil && specSignMismatch(x.Seconds, x.Nanos), int64(d) == specDurationClamp(x.Seconds, x.Nanos)))
+	return
+}
+
+func specSignMismatch(secs int64, nanos int32) bool {
+	return (secs > 0 && nanos < 0) || (secs < 0 && nanos > 0)
+}
+
+//@ props C43
+//@ mode int
+//@ inline GetSeconds GetNanos
+func contract_Duration_check(x *Duration) (code uint) {
+	ensures(imp(x == nil, code == invalidNil))
+	ensures(imp(x != nil, iff(code == 0, specDurationValid(x.Seconds, x.Nanos))))
+	ensures(code <= invalidNanosSign)
+	return
+}
+
+//@ props C43
+//@ mode int
+func contract_Duration_IsValid(x *Duration) (ok bool) {
+	ensures(ok == (x != nil && specDurationValid(x.Seconds, x.Nanos)))
+	return
+}
+
+//@ props C43
+//@ mode int
+//@ inline time.Duration.Nanoseconds
+func contract_New(d time.Duration) (r *Duration) {
+	ensures(r != nil)
+	// normalised: the value is split into whole seconds and a remainder of the same sign
+	ensures(specDurationSplit(int64(d), r.Seconds, r.Nanos))
+	return
+}
+
+// specDurationSplit: (secs, nanos) is the normalised split of d nanoseconds
+// (over mathematical integers: the sum below does not wrap).
+func specDurationSplit(d, secs int64, nanos int32) bool {
+	return -9223372036 <= secs && secs <= 9223372036 &&
+		-999999999 <= nanos && nanos <= 999999999 &&
+		!(secs > 0 && nanos < 0) && !(secs < 0 && nanos > 0) &&
+		secs*1000000000+int64(nanos) == d
+}
+
+//@ props C43
+//@ mode int
+func lemma_NewAsDurationRoundTrip(d time.Duration) {
+	r := New(d)
+	ensures(r.AsDuration() == d)
+	ensures(r.IsValid())
+}
